@@ -65,9 +65,17 @@ pub fn fnv(h: &mut u64, bytes: &[u8]) {
 /// asks for one: a `vshift` / `vdiff` without a fill value, the padding of `vpartition`, or
 /// `collect_vec1_opt` of a stream that holds a `None`. Anywhere else the same panic means the
 /// library evaluated a null it had no reason to evaluate, and is a failure.
+/// What `<i32 as IsNone>::none()` panics with on this tree, learned by calling it once (so a
+/// reworded message does not turn the documented panic into an alarm); None if it does not panic.
+fn none_panic_message() -> &'static Option<String> {
+    static MSG: std::sync::OnceLock<Option<String>> = std::sync::OnceLock::new();
+    MSG.get_or_init(|| guarded(|| <i32 as tea_core::prelude::IsNone>::none()).err())
+}
+
 fn documented_panic(p: &Pipe, msg: &str, expected: Option<&[Obs]>) -> bool {
-    if !msg.contains("Cannot call none() on a non-float type") {
-        return false;
+    match none_panic_message() {
+        Some(m) if msg == m => {},
+        _ => return false,
     }
     let view_asks = |op: &ViewOp| matches!(op, ViewOp::VDiff { fill: None, .. } | ViewOp::VPart { .. });
     if view_asks(&p.root) {
